@@ -10,7 +10,7 @@ m = {
  "setup_cmd": "./setup.sh",
  "hooks": {
    "guard": "OBGM_LIBCOAP_VERIF",
-   "enable": "no source hooks are needed: every check builds /repo's working tree with the repository's own CMake files (scripts/build_lib.sh -> /verif/build/sim, clang ASan+UBSan) and links libcoap-3.a into the simulator with -Wl,--wrap=<libc symbol> seams (socket/epoll/timerfd/clock/allocator/stdio), see DESIGN.md section 2.1",
+   "enable": "no source hooks are needed: every check builds /repo's working tree with the repository's own CMake files (scripts/build_lib.sh -> /verif/build/sim, clang ASan+UBSan) and links libcoap-3.a into the simulator with -Wl,--wrap=<symbol> seams (sockets, epoll, timerfd, select, read, libcoap's allocator, coap_pdu_parse, stdio/rename for C17, pthread_mutex_* for C13; clock_gettime/time/getrandom are strong definitions in the executable), see DESIGN.md sections 2.1 and 14",
    "baseline_off_cmd": "./baseline_off.sh",
    "source_commits": [],
    "add_only": True
